@@ -899,3 +899,47 @@ func elementLoop(m *core.Model, loop ast.Node) (ast.Expr, *ast.BlockStmt, bool) 
 	}
 	return nil, nil, false
 }
+
+// DropCachesExcept forgets what the rules remember about every model other than the given ones. The self-validation
+// analyses hundreds of scratch programs in one process; without this every one of them stays reachable through the
+// caches.
+func DropCachesExcept(keep []*core.Model) {
+	kept := map[*core.Model]bool{}
+	for _, m := range keep {
+		kept[m] = true
+	}
+	for m := range anchorCache {
+		if !kept[m] {
+			delete(anchorCache, m)
+		}
+	}
+	for m := range queryOwnedCache {
+		if !kept[m] {
+			delete(queryOwnedCache, m)
+		}
+	}
+	for m := range tableRolesCache {
+		if !kept[m] {
+			delete(tableRolesCache, m)
+		}
+	}
+	for m := range c06RangeCache {
+		if !kept[m] {
+			delete(c06RangeCache, m)
+		}
+	}
+	keptFunc := func(f *core.Func) bool {
+		for m := range kept {
+			if f != nil && m.Prog != nil && f.Pkg == m.Prog.Ecs {
+				return true
+			}
+		}
+		return false
+	}
+	for f := range moveSummaryCache {
+		if !keptFunc(f) {
+			delete(moveSummaryCache, f)
+		}
+	}
+	core.DropCachesExcept(kept)
+}
